@@ -6,10 +6,10 @@ D=/tmp/repo_seedtest_$$
 rsync -a --exclude _build --exclude .git /repo/ $D/
 ( cd $D && patch -p1 -s < "$P" )
 cd /verif
-VERIF_REPO=$D tools/check $ID --tier $TIER > /tmp/seedtest_$$.out 2>&1
-rc=$?
-grep -E "VIOLATION" /tmp/seedtest_$$.out | cut -c1-300 | head -8
-grep -cE "KNOWN-FINDING" /tmp/seedtest_$$.out | sed 's/^/known-finding lines: /'
+rc=0
+VERIF_REPO=$D tools/check $ID --tier $TIER > /tmp/seedtest_$$.out 2>&1 || rc=$?
+grep -E "VIOLATION" /tmp/seedtest_$$.out | cut -c1-300 | head -8 || true
+(grep -cE "KNOWN-FINDING" /tmp/seedtest_$$.out || true) | sed 's/^/known-finding lines: /'
 rm -f /tmp/seedtest_$$.out
 echo "exit=$rc"
 rm -rf $D
